@@ -100,6 +100,9 @@ def finish(prop, tier, seed, info, reports, dead, wall, replaying=False):
         with open(os.path.join(VERIF, 'evidence', '%s.json' % prop),
                   'w') as f:
             json.dump(ev, f, indent=1, default=str)
+    if len(lines) > 60:
+        lines = lines[:60] + ['... %d more lines suppressed (see replay '
+                              'files / evidence)' % (len(lines) - 60)]
     for l in lines:
         print(l)
     print('%s %s seed=%d: %s; %d evaluations, %d distinct, %d shards, '
